@@ -578,6 +578,32 @@ class KeyPath(formatting.Formattable):
       return comparison(self.key, other.key)
 
 
+class _EscapedEndMarker:
+  """Stands for the user key '$' in the trie of `KeyPathSet`.
+
+  The trie stores the end-of-path marker under the dict key '$'. A path that
+  itself contains the string key '$' is stored with this object in its place,
+  so that it cannot be taken for the marker.
+  """
+
+  def __eq__(self, other: Any) -> bool:
+    return isinstance(other, _EscapedEndMarker)
+
+  def __ne__(self, other: Any) -> bool:
+    return not self.__eq__(other)
+
+  def __hash__(self) -> int:
+    return hash(_EscapedEndMarker)
+
+
+def _trie_keys(path: 'KeyPath') -> List[Any]:
+  """Returns the keys of a path as they are stored in the trie."""
+  return [
+      _EscapedEndMarker() if isinstance(k, str) and k == '$' else k
+      for k in path.keys
+  ]
+
+
 class KeyPathSet(formatting.Formattable):
   """A KeyPath set based on trie-like data structure."""
 
@@ -601,7 +627,7 @@ class KeyPathSet(formatting.Formattable):
     path = KeyPath.from_value(path)
     root = self._trie
     updated = False
-    for key in path.keys:
+    for key in _trie_keys(path):
       if key not in root:
         root[key] = {}
         if include_intermediate:
@@ -619,7 +645,7 @@ class KeyPathSet(formatting.Formattable):
     """Removes a path from the set."""
     path = KeyPath.from_value(path)
     stack = [self._trie]
-    for key in path.keys:
+    for key in _trie_keys(path):
       if key not in stack[-1]:
         return False
       value = stack[-1][key]
@@ -630,7 +656,7 @@ class KeyPathSet(formatting.Formattable):
       stack[-1].pop('$')
       stack.pop(-1)
       assert len(stack) == len(path.keys), (path.keys, stack)
-      for key, parent_node in zip(reversed(path.keys), reversed(stack)):
+      for key, parent_node in zip(reversed(_trie_keys(path)), reversed(stack)):
         if not parent_node[key]:
           del parent_node[key]
       return True
@@ -640,7 +666,7 @@ class KeyPathSet(formatting.Formattable):
     """Returns True if the path is in the set."""
     path = KeyPath.from_value(path)
     root = self._trie
-    for key in path.keys:
+    for key in _trie_keys(path):
       if key not in root:
         return False
       root = root[key]
@@ -657,7 +683,7 @@ class KeyPathSet(formatting.Formattable):
         if k == '$':
           yield KeyPath(keys)
         else:
-          keys.append(k)
+          keys.append('$' if isinstance(k, _EscapedEndMarker) else k)
           for path in _traverse(v, keys):
             yield path
           keys.pop(-1)
@@ -673,7 +699,7 @@ class KeyPathSet(formatting.Formattable):
     """Returns True if the set has a path with the given prefix."""
     root_path = KeyPath.from_value(root_path)
     root = self._trie
-    for key in root_path.keys:
+    for key in _trie_keys(root_path):
       if key not in root:
         return False
       root = root[key]
@@ -691,7 +717,7 @@ class KeyPathSet(formatting.Formattable):
     if not self._trie:
       return
     root = self._trie
-    for key in reversed(root_path.keys):
+    for key in reversed(_trie_keys(root_path)):
       root = {key: root}
     self._trie = root
 
@@ -784,7 +810,7 @@ class KeyPathSet(formatting.Formattable):
     if not root_path:
       return self
     root = self._trie
-    for key in root_path.keys:
+    for key in _trie_keys(root_path):
       if key not in root:
         return None
       root = root[key]
